@@ -9,7 +9,10 @@ from ..ref_codec import CANON_LINE, Malformed, decode_line
 
 PROP = "C02"
 S_CHARS = ["0", "a", "-", " ", "\t", "é", "\U0001d11e", "٣", " ", "　", ";", "\n", "\r"]
-FIELD_CHARS = ["0", "1", "-", "+", " ", "_", "٣", "\t"]
+FIELD_CHARS = ["0", "1", "-", "+", " ", "_", "٣", "\t", "\x0c", "\x1d"]
+# further atoms (encode side and decode payloads up to a shorter length): separators that str.splitlines()
+# knows but the wire does not, and text that Unicode normalisation would rewrite
+EXTRA_ATOMS = ["\x1d", "\x0c", "\x85", "\u2028", "e\u0301", "\u037e", "\u2126", "\ufb01"]
 FIELDS = ("node_id", "child_id", "type", "ack", "sub_type", "payload")
 
 
@@ -153,6 +156,7 @@ def run(tier):
     report = Report(PROP, "exploration", tier)
     maxlen = 4 if tier == "quick" else 5
     payloads = [p for p in strings(S_CHARS, maxlen) if wire_ok(p)]
+    payloads += [p for p in strings(["a", " "] + EXTRA_ATOMS, 3) if wire_ok(p) and any(x in p for x in EXTRA_ATOMS)]
     hv = header_values()
     heads = set()
     base = (1, 0, 1, 0, 2)
@@ -185,6 +189,7 @@ def run(tier):
     # decode side
     spellings = [s for s in strings(FIELD_CHARS, 3) if s]
     dec_payloads = [p for p in strings(S_CHARS, 3 if tier == "quick" else 4) if "\n" not in p]
+    dec_payloads += [p for p in strings(["a", ";"] + EXTRA_ATOMS, 2) if any(x in p for x in EXTRA_ATOMS)]
     endings = ["", "\n", "\r\n", " \n"]
     lines = []
     for pos in range(5):
